@@ -19,7 +19,7 @@ if echo "$suite" | grep -q "failed"; then
     suite="$((n+f)) passed (after re-running $f load-flaky test(s) alone: $(echo $failed | tr '\n' ' '))"
   fi
 fi
-sed -e "s#/tmp/seedwt3/$id#$wt#g" -e "s#/tmp/seedwt2/$id#$wt#g" -e "s#/tmp/seedwt/$id#$wt#g" "$d/demo.py" > /tmp/demo_${id}_${k}.py
+sed -e "s#/tmp/seedwt[0-9]*/$id#$wt#g" -e "s#/tmp/seedwt3/$id#$wt#g" -e "s#/tmp/seedwt2/$id#$wt#g" -e "s#/tmp/seedwt/$id#$wt#g" "$d/demo.py" > /tmp/demo_${id}_${k}.py
 PYTHONPATH="$wt/src:$wt" timeout 300 /venv/bin/python /tmp/demo_${id}_${k}.py >/tmp/demo_${id}_${k}.with.log 2>&1; with=$?
 git checkout -- . ; git clean -fdq
 PYTHONPATH="$wt/src:$wt" timeout 300 /venv/bin/python /tmp/demo_${id}_${k}.py >/tmp/demo_${id}_${k}.without.log 2>&1; without=$?
